@@ -3,6 +3,7 @@ package props
 import (
 	"bytes"
 	"fmt"
+	"strings"
 	"testing"
 
 	cose "github.com/veraison/go-cose"
@@ -17,7 +18,7 @@ import (
 
 // c19Step is one step of a decode history on a single destination variable.
 type c19Step struct {
-	Op   string `json:"op"`             // decode, encode, scribble-input, scribble-output
+	Op   string `json:"op"`             // decode, encode, scribble-input, scribble-output, edit
 	Wire rc.Hex `json:"wire,omitempty"` // decode
 	Idx  int    `json:"idx,omitempty"`  // which earlier buffer to overwrite
 }
@@ -53,7 +54,9 @@ func checkC19(c c19Case) error {
 	var inputs, outputs [][]byte
 	var lastEnc []byte
 	haveEnc := false
-	successes, failedAfterSuccess, scribbles := 0, 0, 0
+	successes, failedAfterSuccess, scribbles, redecodedAfterEdit := 0, 0, 0, 0
+	pristine := map[string]string{} // wire -> value a fresh variable received the first time this history decoded it
+	edited := false
 	enc := func() ([]byte, bool) {
 		out, err := dest.(anyMsg).MarshalCBOR()
 		if err != nil {
@@ -86,8 +89,24 @@ func checkC19(c c19Case) error {
 			if err := fresh.(unmarshaler).UnmarshalCBOR(append([]byte{}, st.Wire...)); err != nil {
 				return finding("history-dependent", "step %d: decode into a used variable succeeds but into a fresh one fails: %v", i, err)
 			}
-			if a, b := bridge.DumpValue(dest), bridge.DumpValue(fresh); a != b {
+			a, b := bridge.DumpValue(dest), bridge.DumpValue(fresh)
+			if a != b {
 				return finding("history-dependent", "step %d: decoding into a previously used variable differs from decoding into a fresh one\nused =%s\nfresh=%s\nwire=%x", i, a, b, []byte(st.Wire))
+			}
+			// the value a decode hands out depends on the input alone: not on what the
+			// caller did to values handed out by earlier decodes of the same bytes
+			if strings.Contains(b, "verif-scribble") {
+				return finding("history-dependent/shared-with-earlier-result", "step %d: a fresh decode returned a value carrying an edit the caller made to an earlier decode's result\nfresh=%s\nwire=%x", i, b, []byte(st.Wire))
+			}
+			if p, ok := pristine[string(st.Wire)]; ok {
+				if p != b {
+					return finding("history-dependent/shared-with-earlier-result", "step %d: decoding the same bytes again gives a different value than the first time (after the caller edited the earlier result: %v)\nfirst=%s\n  now=%s\nwire=%x", i, edited, p, b, []byte(st.Wire))
+				}
+				if edited {
+					redecodedAfterEdit++
+				}
+			} else {
+				pristine[string(st.Wire)] = b
 			}
 			lastEnc, haveEnc = enc()
 			stats.Class("decode-ok")
@@ -98,6 +117,14 @@ func checkC19(c c19Case) error {
 					return finding("encoding-changed", "step %d: encoding of the untouched destination changed\nwas=%x\nnow=%x", i, lastEnc, out)
 				}
 				outputs = append(outputs, out)
+			}
+		case "edit":
+			// the caller edits the value it was handed (maps gain an entry, byte strings are
+			// inverted); what later decodes hand out must not be affected
+			if bridge.Scribble(dest) > 0 {
+				edited = true
+				haveEnc = false
+				stats.Class("edit")
 			}
 		case "scribble-input", "scribble-output":
 			pool := inputs
@@ -128,7 +155,10 @@ func checkC19(c c19Case) error {
 	if failedAfterSuccess > 0 {
 		stats.Class("failed-decode-after-success")
 	}
-	if failedAfterSuccess > 0 || scribbles > 0 {
+	if redecodedAfterEdit > 0 {
+		stats.Class("same-bytes-decoded-again-after-edit")
+	}
+	if failedAfterSuccess > 0 || scribbles > 0 || redecodedAfterEdit > 0 {
 		h := []byte(fmt.Sprint(c.Kind))
 		for _, st := range c.Steps {
 			h = append(h, st.Op...)
@@ -150,7 +180,18 @@ func genC19Case(t *rapid.T) c19Case {
 	// every history starts with a successful decode so that there is state to damage
 	c.Steps = append(c.Steps, c19Step{Op: "decode", Wire: seedFor(t, c.Kind)})
 	for i := 0; i < n; i++ {
-		switch rapid.IntRange(0, 6).Draw(t, "step") {
+		switch rapid.IntRange(0, 8).Draw(t, "step") {
+		case 7:
+			c.Steps = append(c.Steps, c19Step{Op: "edit"})
+		case 8:
+			// edit the result, then decode bytes seen earlier in this history once more
+			var seen []rc.Hex
+			for _, st := range c.Steps {
+				if st.Op == "decode" {
+					seen = append(seen, st.Wire)
+				}
+			}
+			c.Steps = append(c.Steps, c19Step{Op: "edit"}, c19Step{Op: "decode", Wire: rapid.SampledFrom(seen).Draw(t, "again")})
 		case 0, 1:
 			c.Steps = append(c.Steps, c19Step{Op: "decode", Wire: seedFor(t, c.Kind)})
 		case 2, 3:
